@@ -17,7 +17,9 @@ RULE = ("one evaluation = one real call of a commensurability-requiring operatio
         "operands whose reference dimension vectors differ, judged must-raise + operands-unchanged (== / != : all-False / "
         "all-True or raise), and only counted when the same template on all-dimensionless operands returns (otherwise the "
         "refusal is vacuous and only noted).  distinct = (operation/form, kind+shape of each operand, dtype) cells of the "
-        "kind matrix plus (operation/form, unit of A, unit of B) cells of the dimension-pair sweep; commensurable controls, "
+        "kind matrix plus (operation/form, unit of A, unit of B) cells of the dimension-pair sweep (default-registry units, offset scales, "
+        "random compound units, and user symbols of custom registries whose dimension differs between registries or was redefined, judged "
+        "after the identically spelled commensurable operation ran); commensurable controls, "
         "documented exceptions and observed-only calls are counted separately and are not evaluations")
 ASSUMPTIONS = (
     "trusted base: vf/ref/defs.py dimension vectors + vf/ref/uexpr.py evaluator for every unit string used; the passive tap reads "
@@ -47,6 +49,14 @@ ASSUMPTIONS = (
     "ndarray methods unyt does not override (fill, put, searchsorted, flat[...]=) and NumPy functions unyt has no implementation for "
     "(append, setxor1d, digitize, r_) are outside the quantifier: outcome noted as observed:<name>, not judged",
     "isclose/allclose belong to C19; logical_and/or/xor, copysign, logaddexp are not commensurability-requiring: observed only",
+    "user-defined symbols of a UnitRegistry have the dimension their definer passed to registry.add (reference vector written next to the "
+    "unyt.dimensions name in REG_DIMS); string targets such as .to('m') are resolved by unyt in the source's registry, so the cross-registry "
+    "scenario (tick of registry A against tick of registry B) is driven through Unit objects only",
+    "mechanism keys carry an operand class (dimensional / dimensionless-quantity (scale 1) / scaled-dimensionless-quantity (percent...) / bare-number / "
+    "bare-array / quantity-list / dimensionless-quantity-list); handlers that forward a keyword operand to NumPy without looking at it "
+    "(pad, diff, ediff1d, interp left/right, histogram bins/range) use one class 'quantity' for every kind of quantity; divmod, "
+    "ufunc.reduce(initial=), ufunc(out=,where=) and the zero-filled-quantity branch are keyed without ufunc name/form because their mechanism "
+    "does not depend on it",
 )
 MIN_EVALS = 20000
 TIMEOUT = 1500
@@ -224,17 +234,17 @@ def batches(tier, seed):
             b.append((f"registry/{i}", ("registry", {"cases": cc})))
         nrand = 4
     else:
-        step = max(1, len(pairs) // 48)
-        ctxs = [_ctx_tuple(*pairs[(i * step + 7 * i) % len(pairs)]) for i in range(48)]
+        step = max(1, len(pairs) // 96)
+        ctxs = [_ctx_tuple(*pairs[(i * step + 7 * i) % len(pairs)]) for i in range(96)]
         for i, ufc in enumerate(chunks(uf_all, 10)):
-            for j, cc in enumerate(chunks(ctxs, 12)):
+            for j, cc in enumerate(chunks(ctxs, 16)):
                 b.append((f"ufmatrix/{i}.{j}", ("ufmatrix", {"ufuncs": ufc, "ctxs": cc, "dtypes": ["f8"], "tier": tier})))
         for i, ufc in enumerate(chunks(uf_all, 5)):
             b.append((f"ufmatrix/dtypes.{i}", ("ufmatrix", {"ufuncs": ufc, "ctxs": ctxs[:6], "dtypes": ["i8", "f4", "c16", "i4", "u2"], "tier": tier})))
         for i, pc in enumerate(chunks(pairs, 48)):
             b.append((f"ufdims/{i}", ("ufdims", {"pairs": [_ctx_tuple(*p) for p in pc], "tier": tier})))
-        for i, cc in enumerate(chunks(ctxs, 12)):
-            b.append((f"arrayfn/{i}", ("arrayfn", {"ctxs": cc, "dtypes": ["f8", "i8", "f4"] if i % 3 == 0 else ["f8"], "tier": tier})))
+        for i, cc in enumerate(chunks(ctxs, 24)):
+            b.append((f"arrayfn/{i}", ("arrayfn", {"ctxs": cc, "dtypes": ["f8", "i8", "f4"] if i % 2 == 0 else ["f8", "c16"], "tier": tier})))
         for i, pc in enumerate(chunks(pairs, 24)):
             b.append((f"convert/{i}", ("convert", {"pairs": [_ctx_tuple(*p) for p in pc], "tier": tier})))
         b.append(("offsets", ("offsets", {"pairs": OFFSET_UNITS, "others": [u[0] for u in us[:12]], "tier": tier})))
@@ -242,7 +252,7 @@ def batches(tier, seed):
         cases = [(x, y, sc) for sc in ("two-registries", "redefined", "cross") for x in rd for y in rd if x != y and not (sc == "cross" and "dimensionless" in (x, y))]
         for i, cc in enumerate(chunks(cases, 24)):
             b.append((f"registry/{i}", ("registry", {"cases": cc})))
-        nrand = 24
+        nrand = 64
     for i in range(nrand):
         b.append((f"random/{i}", ("random", {"seed": seed, "tier": tier})))
     return b
@@ -1256,9 +1266,12 @@ def worker(batch, rec):
         drive_random(J, bid, payload)
     else:
         raise KeyError(kind)
-    dead = sorted({f"{k[0]}/{k[1]}" if (isinstance(k[1], str) and k[1] in FORMCLASS) else str(k[0]) for k, v in J.twin_cache.items() if not v[0]})
-    for d in dead[:300]:
-        rec.note("template-dead-on-dimensionless-twin:" + d)
+    def tname(k):
+        return f"{k[0]}/{k[1]}" if (isinstance(k[1], str) and k[1] in FORMCLASS) else str(k[0])
+    for d in sorted({tname(k) for k, v in J.twin_cache.items() if not v[0]}):
+        rec.note("twin-dead:" + d)
+    for d in sorted({tname(k) for k, v in J.twin_cache.items() if v[0]}):
+        rec.note("twin-alive:" + d)
 
 
 # ------------------------------------------------------------------ evidence
@@ -1326,8 +1339,9 @@ def extra(tier, seed, results):
         "unreached": unreached,
         "observed_outside_quantifier": grp("observed:"),
         "not_judged_exceptions": grp("not-judged:"),
-        "templates_dead_on_dimensionless_twin": sorted(grp("template-dead-on-dimensionless-twin:")),
-        "controls_raised": grp("control-raised:"),
+        # templates that never returned on all-dimensionless operands (for no operand kind, shape or dtype): their refusals are vacuous
+        "templates_dead_on_dimensionless_twin": sorted(set(grp("twin-dead:")) - set(grp("twin-alive:"))),
+        "controls_raised": dict(list(grp("control-raised:").items())[:150]),
         "other_notes": {k: v for k, v in sorted(notes.items()) if k.startswith(("eq-shape", "dtype-relabel", "build-failed", "random-unit"))},
         "registry_binary_ufuncs_not_classified": unclassified,
         "handled_functions_without_template": not_driven,
